@@ -1,13 +1,13 @@
 SPECIFICATION GSpec
 VIEW GView
 CONSTANTS
-  Names = {"a", "b"}
-  IntVals <- IV_small
-  Specials = {"none"}
+  Names = {"a", "b", "c"}
+  IntVals <- IV_quick
+  Specials = {"none", "ref"}
   DispNames = {"", "x"}
   MaxPieces = 2
   MaxExt = 1
   MaxDepth = 2
   AsImpl = {}
-  Families = {"look", "conv", "mut", "eqe"}
+  Families = {"look", "conv", "mut", "eqe", "etype"}
 CHECK_DEADLOCK FALSE
